@@ -654,7 +654,7 @@ theorem trChain2_fresh (s : Stmt) : ∀ (te : C.TyEnv) (r : Stmt × C.TyEnv),
 
 /-- the prologue pass only adds declarations and keeps the bookkeeping invariant (distinct globals, name-free initialisers) -/
 theorem trTop2_inv (s : Stmt) : ∀ (acc acc' : TopAcc), trTop2 acc s = .ok acc' →
-    Sub acc.te acc'.te ∧ (Inv acc → Inv acc') := by
+    Sub acc.te acc'.te ∧ (InvP NameFree acc → InvP NameFree acc') := by
   induction s with
   | skip => intro acc acc' h; simp only [trTop2] at h; cases h; exact ⟨Sub_refl _, fun hI => hI⟩
   | seq a b iha ihb =>
@@ -673,10 +673,10 @@ theorem trTop2_inv (s : Stmt) : ∀ (acc acc' : TopAcc), trTop2 acc s = .ok acc'
       split at h
       · rename_i hnf
         cases h
-        obtain ⟨f1, _, f3⟩ := facts_new (t := inferTy acc.te e) acc.setup hl hnf.1
+        obtain ⟨f1, _, f3⟩ := facts_new (P := NameFree) (t := inferTy acc.te e) acc.setup hl hnf.1
         exact ⟨f1, f3⟩
       · cases h
-        obtain ⟨f1, _, f3⟩ := facts_new (t := inferTy acc.te e) (Stmt.assign x e :: acc.setup) hl
+        obtain ⟨f1, _, f3⟩ := facts_new (P := NameFree) (t := inferTy acc.te e) (Stmt.assign x e :: acc.setup) hl
           (defaultOf_nameFree (inferTy acc.te e))
         exact ⟨f1, f3⟩
   | ifs c t e _ _ =>
@@ -684,13 +684,13 @@ theorem trTop2_inv (s : Stmt) : ∀ (acc acc' : TopAcc), trTop2 acc s = .ok acc'
     simp only [trTop2] at h
     obtain ⟨r, hr, h⟩ := bind_ok h
     cases h
-    exact ⟨Sub_append _ _, fun hI => Inv_addPromoted _ hI (trChain2_fresh _ _ _ hr (Inv_keys hI))⟩
+    exact ⟨Sub_append _ _, fun hI => InvP_addPromoted defaultOf_nameFree _ hI (trChain2_fresh _ _ _ hr (Inv_keys hI))⟩
   | whileLoop c b _ =>
     intro acc acc' h
     simp only [trTop2] at h
     obtain ⟨r, hr, h⟩ := bind_ok h
     cases h
-    exact ⟨Sub_append _ _, fun hI => Inv_addPromoted _ hI (Fresh_newDecls _ (trBody2_keys hr (Inv_keys hI)))⟩
+    exact ⟨Sub_append _ _, fun hI => InvP_addPromoted defaultOf_nameFree _ hI (Fresh_newDecls _ (trBody2_keys hr (Inv_keys hI)))⟩
   | forRange i n b _ =>
     intro acc acc' h
     simp only [trTop2] at h
@@ -700,7 +700,7 @@ theorem trTop2_inv (s : Stmt) : ∀ (acc acc' : TopAcc), trTop2 acc s = .ok acc'
       simp only [Bool.not_eq_true, Option.isSome_eq_false_iff, Option.isNone_iff_eq_none] at hi
       obtain ⟨r, hr, h⟩ := bind_ok h
       cases h
-      refine ⟨Sub_append _ _, fun hI => Inv_addPromoted _ hI ?_⟩
+      refine ⟨Sub_append _ _, fun hI => InvP_addPromoted defaultOf_nameFree _ hI ?_⟩
       have hk := Inv_keys hI
       have hk' : Keys ((i, Ty.int) :: acc.te) := by
         unfold Keys
@@ -821,7 +821,7 @@ theorem tr2_wf' (p : Prog) (c : CProg) (ht : tr2 p = .ok c)
       obtain ⟨loop, hloop, ht⟩ := bind_ok ht
       cases ht; exact ⟨_, rfl, hloop⟩
   subst hc
-  have hI : Inv acc := (trTop2_inv _ _ _ hacc).2 ⟨rfl, fun _ h => (by cases h), List.Pairwise.nil⟩
+  have hI : InvP NameFree acc := (trTop2_inv _ _ _ hacc).2 ⟨rfl, fun _ h => (by cases h), List.Pairwise.nil⟩
   obtain ⟨h1, h2, h3⟩ := hI
   have hin : InSc (acc.globals.reverse.map (·.1)) acc.te := by
     intro x hx
